@@ -376,7 +376,7 @@ def judge_disable_multi(src, S, col=None):
 
 def shards(tier, seed):
     n = 16
-    out = [{"mode": "templates"}] + [{"mode": "multi", "index": i} for i in range(len(TEMPLATES))]
+    out = [{"mode": "templates"}] + [{"mode": "multi", "index": i} for i in range(min(3, len(TEMPLATES)))]
     out += [{"mode": "corpus", "index": i, "programs": 4 if tier == "quick" else 250, "variants": 40 if tier == "quick" else 400} for i in range(n - 1)]
     return out
 
@@ -397,7 +397,7 @@ def run_shard(spec):
     if spec["mode"] == "multi":
         src = TEMPLATES[spec["index"]]
         codes = sorted({d.code for d in check(src)} - {"unused_ignore", "bare_ignore"})
-        for S in [[c] for c in codes[:2]] + ([codes[:2]] if len(codes) > 1 else []):
+        for S in [[c] for c in codes[:1]] + ([codes[:2]] if len(codes) > 1 else []):
             for key, what, case in judge_disable_multi(src, S, col):
                 col.fail(key, what, case)
         return col.result()
